@@ -151,13 +151,17 @@ def scope_case(case):
     import httpx
     import pydantic
     from ariadne_codegen.exceptions import CodeGenException
-    scope, n1, n2, snake = case
+    scope, n1, n2, snake = case[:4]
+    cfg = dict(case[4]) if len(case) > 4 else {}
+    if scope == "operation_vs_module":
+        return module_collision_case(n1, cfg)
+    is_async = cfg.get("async_client", True)
     schema, queries = scope_inputs(scope, n1, n2)
     out = {"status": "ok", "problems": []}
     P = out["problems"]
     with genpkg.scratch() as d:
         try:
-            pkg, pdir, _ = genpkg.generate(d, schema, queries, {"convert_to_snake_case": snake})
+            pkg, pdir, _ = genpkg.generate(d, schema, queries, dict(cfg, convert_to_snake_case=snake))
         except genpkg.GenError as e:
             if isinstance(e.exc, CodeGenException):
                 out["status"] = "refused"
@@ -181,11 +185,11 @@ def scope_case(case):
             data = {"response_keys": {"user": {n1: "i", n2: "n"}}, "result_fields": {"user": {n1: "i", n2: "n"}}, "input_fields": {"f": 1},
                     "variables": {"f": 1}, "operations": {"a": 1, "b": 2}, "enum_values": {"e": n2}, "enum_value_as_default": {"f": n1}}[scope]
             return httpx.Response(200, json={"data": data})
-        c = clients.make_client(mod.Client, True, handler)
+        c = clients.make_client(mod.Client, is_async, handler)
         methods = [m for m in vars(mod.Client) if not m.startswith("__")]
         try:
             if scope in ("response_keys", "result_fields"):
-                r = clients.call(True, c.p)
+                r = clients.call(is_async, c.p)
                 u = r.user
                 got = u.model_dump(by_alias=True)
                 if got != {n1: "i", n2: "n"}:
@@ -209,7 +213,7 @@ def scope_case(case):
                         P.append(("wire_name_changed", f"aliases {sorted(byalias)} expected {[n1, n2]}"))
                     else:
                         inst = I(**{byalias[n1]: 1, byalias[n2]: 2})
-                        clients.call(True, c.p, i=inst)
+                        clients.call(is_async, c.p, i=inst)
                         sent = captured[-1]["variables"].get("i")
                         if sent != {n1: 1, n2: 2}:
                             P.append(("names_merged", f"sent input {sent}"))
@@ -219,7 +223,7 @@ def scope_case(case):
                 if len(params) != 2:
                     P.append(("names_merged", f"method parameters {params}"))
                 else:
-                    clients.call(True, c.p, **{params[0]: 1, params[1]: 2})
+                    clients.call(is_async, c.p, **{params[0]: 1, params[1]: 2})
                     sent = captured[-1]["variables"]
                     if sent != {n1: 1, n2: 2}:
                         P.append(("names_merged", f"sent variables {sent} for parameters {params}"))
@@ -230,7 +234,7 @@ def scope_case(case):
                 names_sent = set()
                 for m in ms:
                     try:
-                        clients.call(True, getattr(c, m))
+                        clients.call(is_async, getattr(c, m))
                     except Exception:  # noqa
                         pass
                     if captured:
@@ -247,11 +251,71 @@ def scope_case(case):
                 vals = sorted(m.value for m in E)
                 if vals != sorted([n1, n2]):
                     P.append(("names_merged", f"enum members {[(m.name, m.value) for m in E]}"))
-                r = clients.call(True, c.p)
+                r = clients.call(is_async, c.p)
                 if getattr(r.e, "value", None) != n2:
                     P.append(("enum_value_lost", f"{r.e!r}"))
         except Exception as e:  # noqa
             import traceback
+            P.append(("unusable", f"{type(e).__name__}: {str(e)[:300]}"))
+    return out
+
+
+MODULE_CFGS = [("default", {}), ("sync", {"async_client": False}), ("ot", {"opentelemetry_client": True}), ("sync_ot", {"async_client": False, "opentelemetry_client": True}),
+               ("custom_operations", {"enable_custom_operations": True}), ("extract", {"plugins": ["ariadne_codegen.contrib.extract_operations.ExtractOperationsPlugin"]})]
+MC_SCHEMA = "enum E { A }\ninput I { a: Int }\ntype T { id: ID e: E }\ntype Query { t(i: I): T }\n"
+MC_FRAG = "fragment F on T { id }\n"
+
+
+def module_stems(cfg):
+    """File stems of a package generated for one harmless operation under cfg (computed by generating it, in a forked child)."""
+    def gen(_):
+        with genpkg.scratch() as d:
+            pkg, pdir, _ = genpkg.generate(d, MC_SCHEMA, "query ZzProbe($i: I) { t(i: $i) { ...F e } }\n" + MC_FRAG, dict(cfg))
+            mod, mods = genpkg.import_package(d, pkg)
+            return {k: sorted(n for n, v in vars(m).items() if not n.startswith("_") and getattr(v, "__module__", None) == m.__name__) for k, m in mods.items() if k not in ("__init__", "zz_probe")}
+    st, r = pool.run_forked(gen, None, timeout=300)
+    return r if st == "ok" else {}
+
+
+def module_collision_case(opname, cfg):
+    """An operation whose module name equals a fixed module of the package: generation must refuse, or everything stays usable."""
+    import httpx
+    from ariadne_codegen.exceptions import CodeGenException
+    baseline = cfg.pop("__baseline__")
+    out = {"status": "ok", "problems": []}
+    P = out["problems"]
+    with genpkg.scratch() as d:
+        try:
+            pkg, pdir, _ = genpkg.generate(d, MC_SCHEMA, f"query {opname}($i: I) {{ t(i: $i) {{ ...F e }} }}\n" + MC_FRAG, dict(cfg))
+        except genpkg.GenError as e:
+            out["status"] = "refused" if isinstance(e.exc, CodeGenException) else "gen_error"
+            out["error"], out["error_type"] = str(e), e.exc_type
+            return out
+        try:
+            mod, mods = genpkg.import_package(d, pkg)
+        except BaseException as e:  # noqa
+            out.update(status="import_error", error=f"{type(e).__name__}: {e}", error_type=type(e).__name__)
+            return out
+        for stem, names in baseline.items():
+            have = set(vars(mods[stem])) if stem in mods else set()
+            lost = [n for n in names if n not in have]
+            if lost:
+                P.append(("names_merged", f"module {stem} of the package lost {lost[:5]} (an operation module took its place)"))
+        captured = []
+
+        def handler(request):
+            captured.append(json.loads(request.content))
+            return httpx.Response(200, json={"data": {"t": {"id": "1", "e": "A"}}})
+        is_async = cfg.get("async_client", True)
+        try:
+            c = clients.make_client(mod.Client, is_async, handler)
+            from mc.opcheck import find_method
+            r = clients.call(is_async, getattr(c, find_method(mod.Client, opname)))
+            if not captured or captured[-1].get("operationName") != opname:
+                P.append(("names_merged", f"operationName sent: {captured[-1].get('operationName') if captured else None}"))
+            if getattr(getattr(r, "t", None), "id", None) != "1":
+                P.append(("unusable", f"result {r!r}"))
+        except Exception as e:  # noqa
             P.append(("unusable", f"{type(e).__name__}: {str(e)[:300]}"))
     return out
 
@@ -293,6 +357,20 @@ def main(tier):
                 continue
             for snake in ((True, False) if scope != "operations" else (True,)):
                 cases.append((scope, n, "zzOther", snake))
+    # wire names through every bundled base client (the four copies serialise input models separately)
+    for n in cat:
+        for cfg in ({"async_client": False}, {"opentelemetry_client": True}, {"async_client": False, "opentelemetry_client": True}):
+            for snake in (True, False):
+                if tier == "quick" and not snake and n.islower() and "_" not in n:
+                    continue
+                cases.append(("input_fields", n, "zzOther", snake, tuple(sorted(cfg.items()))))
+    # operations named like a fixed module of the package, for every configuration that adds fixed modules
+    from ariadne_codegen.utils import str_to_pascal_case
+    for label, cfg in MODULE_CFGS:
+        stems = module_stems(cfg)
+        for stem in stems:
+            for opname in sorted({stem, str_to_pascal_case(stem), stem.upper()}):
+                cases.append(("operation_vs_module", opname, label, True, tuple(sorted(dict(cfg, __baseline__=stems).items(), key=lambda kv: kv[0]))))
     # enum scope: keyword / Enum-reserved names as sibling values
     for a, b in (("class", "class_"), ("mro", "name"), ("None", "True"), ("_missing_", "value")):
         cases.append(("enum_values", a, b, True))
@@ -300,14 +378,16 @@ def main(tier):
     counts = {"refused": 0, "ok": 0, "gen_error": 0, "import_error": 0}
     distinct = set()
     for case, (st, r) in zip(cases, results):
-        scope, n1, n2, snake = case
-        feats = {f"scope:{scope}", f"snake:{snake}"} | {f"name:{n}" for n in (n1, n2) if n != "zzOther"} | name_features(n1) | (name_features(n2) if n2 != "zzOther" else set())
+        scope, n1, n2, snake = case[:4]
+        feats = ({f"cfg:{k}={v}" for k, v in case[4] if not k.startswith("__")} if len(case) > 4 else set()) | {f"scope:{scope}", f"snake:{snake}"} | {f"name:{n}" for n in (n1, n2) if n != "zzOther"} | name_features(n1) | (name_features(n2) if n2 != "zzOther" else set())
         if n2 == "zzOther":
             feats.add("single_name")
         else:
             feats.add("colliding_pair")
             feats.add(f"pair@{scope}")
-        desc = {"scope": scope, "names": [n1, n2], "snake": snake}
+        desc = {"scope": scope, "names": [n1, n2], "snake": snake, "cfg": [list(kv) for kv in case[4] if not kv[0].startswith("__")] if len(case) > 4 else []}
+        if scope == "operation_vs_module":
+            feats = {f"scope:{scope}", f"module_cfg:{n2}", f"opname:{n1}"}
         if rep.triage:
             rep.seen(feats)
         if st != "ok":
@@ -341,7 +421,11 @@ def replay(path):
     c = rec["case"]
     genpkg.warm()
     if "scope" in c:
-        st, r = pool.run_forked(scope_case, (c["scope"], c["names"][0], c["names"][1], c["snake"]))
+        cfg = tuple(tuple(kv) for kv in (c.get("cfg") or []))
+        if c["scope"] == "operation_vs_module":
+            base = dict(MODULE_CFGS)[c["names"][1]]
+            cfg = tuple(sorted(dict(base, __baseline__=module_stems(base)).items(), key=lambda kv: kv[0]))
+        st, r = pool.run_forked(scope_case, (c["scope"], c["names"][0], c["names"][1], c["snake"]) + ((cfg,) if cfg else ()))
         print(st, r)
         return 1 if st != "ok" or r["status"] not in ("ok", "refused") or r["problems"] else 0
     from ariadne_codegen.utils import process_name
